@@ -51,7 +51,9 @@ func (db *DB) InsertRaw(stream string, ts time.Time, dims bytemap.ByteMap, vals 
 	if db.log.IsTraceEnabled() {
 		db.log.Tracef("Writing to wal with dims length %d: %v", len(dims), bytemap.ByteMap(dims).AsMap())
 	}
+	verifPoint("insert.wal.before")
 	err := w.Write(tsd, dimsLen, dims, valsLen, vals)
+	verifPoint("insert.wal.after")
 	if err != nil {
 		db.log.Error(err)
 	}
